@@ -105,6 +105,12 @@ func (g *c07gen) key(i int) string {
 		g.oddKeys = true
 		return "*" + sx.Pick(g.rng, g.scalarAnch) + " "
 	}
+	if g.rng.Chance(4) {
+		// a STRING key spelled << is an ordinary key, not a merge (yaml.v3's own decoder drops such a key from a
+		// merged mapping, so it is no reference here: compared with the model only)
+		g.oddKeys = true
+		return sx.Pick(g.rng, []string{"\"<<\"", "'<<'", "!!str <<"})
+	}
 	return fmt.Sprintf("k%d", g.rng.Intn(6))
 }
 
